@@ -223,7 +223,7 @@ def run(ctx):
         mon = ReplayMonitor(ctx, fl)
         mon.install(probe)
         for i, rnd in ctx.cases("engines", nengines):
-            spec = E.gen_engine(rnd, activations=("General",), d=rnd.choice([1, 3, 3]), resolutions=[1, 2, 5, 10, 37, 100, 1000], free_weights=True, share_defuzzifier=True)
+            spec = E.gen_engine(rnd, activations=("General",), d=rnd.choice([1, 3, 3]), resolutions=[1, 2, 5, 10, 37, 100, 1000], free_weights=True, share_defuzzifier=True, routes=True)
             try:
                 engine = E.build(fl, spec)
             except Exception as ex:
